@@ -31,6 +31,20 @@ func c03Message(kind int) *Message {
 		return NewMessage("u", nil)
 	case 1:
 		return NewMessage("u", Payload("p")).Copy()
+	case 3, 4, 5:
+		// a copy of a message that was settled before (3 acked, 4 nacked) or of a copy (5): a copy is a fresh,
+		// unsettled message whatever its source went through
+		src := NewMessage("u", Payload("p"))
+		switch kind {
+		case 3:
+			src.Ack()
+		case 4:
+			src.Nack()
+		case 5:
+			src = src.Copy()
+			src.Nack()
+		}
+		return src.Copy()
 	}
 	return &Message{} // built without the constructor
 }
@@ -39,7 +53,7 @@ func c03Message(kind int) *Message {
 // nacked, reached through the real API) one arbitrary operation behaves per specification and
 // preserves the representation invariant. Covers sequential histories of any length.
 func HarnessC03Step() {
-	kind := vrt.Int("kind", 0, 2)
+	kind := vrt.Int("kind", 0, 5)
 	m := c03Message(kind)
 	pre := vrt.Int("pre", 0, 2)
 	switch pre {
@@ -148,6 +162,43 @@ func c03Race(n int) {
 		vrt.Assert(!(r.sawA && r.sawN), "no caller ever sees both channels closed")
 		vrt.Assert(r.sawA == (final == 1) && r.sawN == (final == 2), "after its own call returned a caller sees the final settlement")
 	}
+}
+
+// HarnessC03CopyDuringSettle: one goroutine settles a message while another takes a copy of it and settles the
+// copy the other way: the copy is an independent, unsettled message at whatever moment it was taken.
+func HarnessC03CopyDuringSettle() {
+	m := c03Message(vrt.Int("kind", 0, 1))
+	ackOrig := vrt.Bool("orig.ack")
+	done := make(chan struct{}, 2)
+	go func() {
+		if ackOrig {
+			m.Ack()
+		} else {
+			m.Nack()
+		}
+		done <- struct{}{}
+	}()
+	var cp *Message
+	var got bool
+	go func() {
+		cp = m.Copy()
+		vrt.Assert(settlement(cp) == 0, "a copy starts unsettled")
+		if ackOrig {
+			got = cp.Nack() // the opposite of what happens to the original
+		} else {
+			got = cp.Ack()
+		}
+		done <- struct{}{}
+	}()
+	<-done
+	<-done
+	vrt.Assert(got, "the first call on the copy wins, whatever happened to the original")
+	want := 2
+	if !ackOrig {
+		want = 1
+	}
+	vrt.Assert(settlement(cp) == want, "the copy's settlement is its own")
+	vrt.Assert(settlement(m) == 3-want, "and the original's is untouched by the copy")
 }
 
 func HarnessC03Race2() { c03Race(2) }
